@@ -124,6 +124,13 @@ def run(f, fixture, rep, cfg, tier):
     # ---- R4 -------------------------------------------------------------------------------------
     cb = f.one("FileOptionsBuilder::caps")
     errs = {x for (_b, x) in err_assign_blocks(cb)}
+    # the builder hands the caller's text to FileCaps::from_str as given (trimming or re-casing it would store something else)
+    tcb = TermBuilder(cb)
+    fs = [c for c in cb.calls() if c.decl == "std::str::FromStr::from_str" or c.decl.endswith("FileCaps::new") or c.decl.endswith("FileCaps as std::str::FromStr>::from_str")]
+    if rep.check(len(fs) == 1, "R3", "caps|constructs", "caps() constructs the value through FileCaps::from_str / new", "caps() has %d FileCaps constructions" % len(fs), cb.span):
+        got = render(tcb.term(fs[0].args[0]))
+        rep.check(got == (cb.local_name(2) or "_2"), "R3", "caps|verbatim", "caps() passes the caller's text unchanged",
+                  "caps() passes %s to FileCaps, not the text it was given: the stored capability text differs from the caller's" % got[:160], fs[0].loc())
     rep.check(errs == {"InvalidCapabilities"}, "R4", "caps|error-mapping", "caps() reports InvalidCapabilities", "caps() error exits are %s" % sorted(map(str, errs)), cb.span)
 
     # ---- R5 tables --------------------------------------------------------------------------------
@@ -227,6 +234,26 @@ def run(f, fixture, rep, cfg, tier):
         splits = [c for c in vc.calls() if c.decl.endswith("<impl str>::split") and any("','" in render(tc.term(a)) for a in c.args[1:])]
         rep.check(bool(ups) and bool(splits), "R5", "capset|per-name",
                   "each comma-separated name is upper-cased and looked up", "validate_capset no longer splits at ',' (%d) and upper-cases (%d) each name" % (len(splits), len(ups)), vc.span)
+    # no early success inside the per-name scan: a name that follows an accepted one is still looked up
+    okb = set(ok_assign_blocks(vc))
+    for (hdr, blks) in vc.loops():
+        # exits of the scan: the one taken when the iterator is exhausted is the regular end; any other exit that can reach
+        # Ok(()) accepts the text before the remaining names were looked at
+        inside_ok = []
+        for u_ in blks:
+            for v_ in vc.succ(u_):
+                if v_ in blks:
+                    continue
+                info_u = switch_info(vc, u_)
+                exhausted = False
+                if info_u and info_u["kind"] == "discr":
+                    lv = vc.origins(info_u["place"], passthrough={})
+                    if any(l["kind"] == "call" and l["call"].decl.endswith("Iterator::next") for l in lv) and info_u["targets"].get(0) == v_:
+                        exhausted = True
+                if not exhausted and (reach_from(vc, v_) & okb):
+                    inside_ok.append(v_)
+        rep.check(not inside_ok, "R5", "capset|no-early-accept", "validate_capset accepts only after every name was checked",
+                  "validate_capset returns Ok(()) from inside its scan over the names: the names after that point are never checked", vc.span)
     alls = [c for c in vc.calls() if c.decl.endswith("eq_ignore_ascii_case")]
     rep.check(len(alls) == 1 and any('"all"' in render(tc.term(a)) for a in alls[0].args), "R5", "capset|all", "'all' is accepted case-insensitively",
               "the 'all' shortcut is no longer an eq_ignore_ascii_case(\"all\") test", vc.span)
